@@ -270,6 +270,17 @@ def bounded_hof(tier, seed):
         ('fold-left(1 to 3, (1, 2), function($a, $b) { ($a, $b) })', [1, 2, 1, 2, 3]), ('fold-right(1 to 3, (1, 2), function($a, $b) { ($a, $b) })', [1, 2, 3, 1, 2]),
         ('fold-left((), (7, 8), function($a, $b) { $a })', [7, 8]), ('sort((true(), false(), true()))', [False, True, True]),
         ("sort(('true', '0', '1', 'false'), (), xs:boolean#1)", ['0', 'false', 'true', '1']),
+        # the name and arity of a partial application do not depend on what was asked of the function item before
+        ("let $f := abs#1 return (string(function-name($f)), empty(function-name($f(?))), function-arity($f(?)), string(function-name($f)))", ['fn:abs', True, 1, 'fn:abs']),
+        ("let $f := concat#3 return (function-arity($f), function-arity($f(?, 'b', ?)), empty(function-name($f('a', ?, ?))), string(function-name($f)))", [3, 2, True, 'fn:concat']),
+        ("(empty(function-name(abs(?))), empty(function-name(function($x) { $x })), string(function-name(abs#1)))", [True, True, 'fn:abs']),
+        # function conversion rules in dynamic calls: numeric promotion to the declared type (decimal/integer to xs:float and xs:double, float to double)
+        ("function($x as xs:float) { $x instance of xs:float }(1.5)", True), ("function($x as xs:float) { $x instance of xs:float }(2)", True),
+        ("function($x as xs:double) { $x instance of xs:double }(1)", True), ("function($x as xs:double) { $x instance of xs:double }(xs:float('1.5'))", True),
+        ("for-each((1, 2.5), function($x as xs:float) as xs:float { $x * 2 }) ! (. instance of xs:float)", [True, True]),
+        ("fold-left((1, 2.5), xs:float('0'), function($a as xs:float, $b as xs:float) as xs:float { $a + $b }) instance of xs:float", True),
+        ("function($x as xs:decimal) as xs:float { $x }(1.5) instance of xs:float", True), ("function($x as xs:integer) as xs:double { $x }(3) instance of xs:double", True),
+        ("function($x as xs:untypedAtomic) { $x instance of xs:untypedAtomic }(xs:untypedAtomic('a'))", True), ("function($x as xs:double) { $x }(xs:untypedAtomic('2')) instance of xs:double", True),
         # the key function is applied to every item, also to items that are equal as Python values but distinct as XDM values
         ("string-join(for $v in sort((2.0, 2, 1.0, 1), (), function($x) { if ($x instance of xs:integer) then 0 else 1 }) "
          "return (if ($v instance of xs:integer) then 'i' else 'd') || $v, ' ')", 'i2 i1 d2 d1'),
